@@ -372,37 +372,40 @@ func safe(w []uint64, byz []int, pcMax bool) bool {
 func configs(thorough bool) []config {
 	cs := []config{}
 	eq4 := []uint64{1, 1, 1, 1}
+	eq5 := []uint64{1, 1, 1, 1, 1}
 	for b := 0; b < 4; b++ {
 		cs = append(cs, config{Name: fmt.Sprintf("n4-byz%d-14slots-reduced", b), Weights: eq4, Byz: []int{b}, Slots: 14, MaxLeaves: 2, MaxSkips: 1})
 	}
 	cs = append(cs,
-		config{Name: "n4-byz1-10slots-full", Weights: eq4, Byz: []int{1}, Slots: 10, MaxLeaves: 2, MaxSkips: 2, ByzFull: true},
-		config{Name: "n3-f0-13slots", Weights: []uint64{1, 1, 1}, Byz: nil, Slots: 13, MaxLeaves: 2, MaxSkips: 1, HonestAny: false},
-		config{Name: "w2111-byz2-13slots", Weights: []uint64{2, 1, 1, 1}, Byz: []int{2}, Slots: 13, MaxLeaves: 2, MaxSkips: 1},
-		config{Name: "n4-byz0-9slots-3leaves", Weights: eq4, Byz: []int{0}, Slots: 9, MaxLeaves: 3, MaxSkips: 1},
-		config{Name: "n4-byz2-11slots-honestany", Weights: eq4, Byz: []int{2}, Slots: 11, MaxLeaves: 2, MaxSkips: 0, HonestAny: true},
-		config{Name: "n4-byz3-join5-12slots", Weights: eq4, Byz: []int{3}, Slots: 12, MaxLeaves: 2, MaxSkips: 0, ChangeAt: 2, After: []uint64{1, 1, 1, 1, 1}},
-		config{Name: "n4-byz1-reweight-12slots", Weights: eq4, Byz: []int{1}, Slots: 12, MaxLeaves: 2, MaxSkips: 0, ChangeAt: 2, After: []uint64{2, 1, 1, 1}},
+		config{Name: "n4-f0-16slots", Weights: eq4, Byz: nil, Slots: 16, MaxLeaves: 2, MaxSkips: 1},
+		config{Name: "n4-byz1-11slots-full", Weights: eq4, Byz: []int{1}, Slots: 11, MaxLeaves: 2, MaxSkips: 2, ByzFull: true},
+		config{Name: "n3-f0-15slots", Weights: []uint64{1, 1, 1}, Byz: nil, Slots: 15, MaxLeaves: 2, MaxSkips: 1},
+		config{Name: "w2111-byz2-14slots", Weights: []uint64{2, 1, 1, 1}, Byz: []int{2}, Slots: 14, MaxLeaves: 2, MaxSkips: 1},
+		config{Name: "n4-byz0-10slots-3leaves", Weights: eq4, Byz: []int{0}, Slots: 10, MaxLeaves: 3, MaxSkips: 1},
+		config{Name: "n4-byz2-8slots-honestany", Weights: eq4, Byz: []int{2}, Slots: 8, MaxLeaves: 2, MaxSkips: 0, HonestAny: true},
+		config{Name: "n4-byz3-join5-15slots", Weights: eq4, Byz: []int{3}, Slots: 15, MaxLeaves: 2, MaxSkips: 1, ChangeAt: 2, After: eq5},
+		config{Name: "n4-byz1-reweight-15slots", Weights: eq4, Byz: []int{1}, Slots: 15, MaxLeaves: 2, MaxSkips: 1, ChangeAt: 2, After: []uint64{2, 1, 1, 1}},
+		config{Name: "n5-byz0-leave-15slots", Weights: eq5, Byz: []int{0}, Slots: 15, MaxLeaves: 2, MaxSkips: 0, ChangeAt: 2, After: []uint64{1, 1, 1, 1, 0}},
 	)
-	for i := range cs {
-		cs[i].MaxForkHeight = -1
-	}
-	cs = append(cs, probeConfigs()...)
 	if thorough {
 		for b := 0; b < 4; b++ {
 			cs = append(cs, config{Name: fmt.Sprintf("n4-byz%d-16slots-reduced", b), Weights: eq4, Byz: []int{b}, Slots: 16, MaxLeaves: 2, MaxSkips: 1})
 		}
 		cs = append(cs,
-			config{Name: "n4-byz1-12slots-full", Weights: eq4, Byz: []int{1}, Slots: 12, MaxLeaves: 2, MaxSkips: 2, ByzFull: true},
+			config{Name: "n4-byz1-13slots-full", Weights: eq4, Byz: []int{1}, Slots: 13, MaxLeaves: 2, MaxSkips: 2, ByzFull: true},
 			config{Name: "n4-byz2-11slots-double", Weights: eq4, Byz: []int{2}, Slots: 11, MaxLeaves: 3, MaxSkips: 1, Double: true},
-			config{Name: "n4-byz0-11slots-3leaves", Weights: eq4, Byz: []int{0}, Slots: 11, MaxLeaves: 3, MaxSkips: 1},
-			config{Name: "n4-byz1-13slots-honestany", Weights: eq4, Byz: []int{1}, Slots: 13, MaxLeaves: 2, MaxSkips: 1, HonestAny: true},
-			config{Name: "n5-byz4-15slots", Weights: []uint64{1, 1, 1, 1, 1}, Byz: []int{4}, Slots: 15, MaxLeaves: 2, MaxSkips: 0},
-			config{Name: "n5-byz0-leave-14slots", Weights: []uint64{1, 1, 1, 1, 1}, Byz: []int{0}, Slots: 14, MaxLeaves: 2, MaxSkips: 0, ChangeAt: 2, After: []uint64{1, 1, 1, 1, 0}},
-			config{Name: "n4-byz0-pcmax-14slots", Weights: eq4, Byz: []int{0}, Slots: 14, MaxLeaves: 2, MaxSkips: 1, PrecommitMax: true},
-			config{Name: "w3221-byz3-14slots", Weights: []uint64{3, 2, 2, 1}, Byz: []int{3}, Slots: 14, MaxLeaves: 2, MaxSkips: 1},
-			config{Name: "n3-f0-16slots-honestany", Weights: []uint64{1, 1, 1}, Byz: nil, Slots: 16, MaxLeaves: 2, MaxSkips: 1, HonestAny: true},
+			config{Name: "n4-byz0-12slots-3leaves", Weights: eq4, Byz: []int{0}, Slots: 12, MaxLeaves: 3, MaxSkips: 1},
+			config{Name: "n4-byz1-10slots-honestany", Weights: eq4, Byz: []int{1}, Slots: 10, MaxLeaves: 2, MaxSkips: 1, HonestAny: true},
+			config{Name: "n5-byz4-17slots", Weights: eq5, Byz: []int{4}, Slots: 17, MaxLeaves: 2, MaxSkips: 0},
+			config{Name: "n4-byz0-pcmax-15slots", Weights: eq4, Byz: []int{0}, Slots: 15, MaxLeaves: 2, MaxSkips: 1, PrecommitMax: true},
+			config{Name: "w3221-byz3-15slots", Weights: []uint64{3, 2, 2, 1}, Byz: []int{3}, Slots: 15, MaxLeaves: 2, MaxSkips: 1},
+			config{Name: "n3-f0-12slots-honestany", Weights: []uint64{1, 1, 1}, Byz: nil, Slots: 12, MaxLeaves: 2, MaxSkips: 1, HonestAny: true},
+			config{Name: "n4-f0-19slots", Weights: eq4, Byz: nil, Slots: 19, MaxLeaves: 2, MaxSkips: 2},
+			config{Name: "n4-byz2-join5-17slots", Weights: eq4, Byz: []int{2}, Slots: 17, MaxLeaves: 2, MaxSkips: 1, ChangeAt: 3, After: eq5},
 		)
+	}
+	for i := range cs {
+		cs[i].MaxForkHeight = -1
 	}
 	return cs
 }
@@ -555,19 +558,4 @@ func main() {
 		r.Sample(map[string]interface{}{"cfg": shards[len(shards)-1].cfg.Name, "prefix": shards[len(shards)-1].path})
 	}
 	r.Finish()
-}
-
-func probeConfigs() []config {
-	eq4 := []uint64{1, 1, 1, 1}
-	cs := []config{}
-	for _, sl := range []int{14, 16, 18} {
-		cs = append(cs, config{Name: fmt.Sprintf("probe-n4f0-%d", sl), Weights: eq4, Byz: nil, Slots: sl, MaxLeaves: 2, MaxSkips: 1, MaxForkHeight: -1})
-		cs = append(cs, config{Name: fmt.Sprintf("probe-n4f0-any-%d", sl), Weights: eq4, Byz: nil, Slots: sl, MaxLeaves: 2, MaxSkips: 0, MaxForkHeight: -1, HonestAny: true})
-	}
-	for _, sl := range []int{12, 13, 14} {
-		for _, fh := range []int{0, 1} {
-			cs = append(cs, config{Name: fmt.Sprintf("probe-%d-fh%d", sl, fh), Weights: eq4, Byz: []int{1}, Slots: sl, MaxLeaves: 2, MaxSkips: 0, MaxForkHeight: fh})
-		}
-	}
-	return cs
 }
